@@ -36,12 +36,28 @@ def untranslatable_obligations(log):
                             "detail": "alias variant cannot be given a meaning: " + r["untranslatable"]})
     return obs
 
-def module_theorems(module, namespace):
-    """every `theorem` declared in a hand-written property module (namespace-qualified)"""
+def module_theorems(module, namespace=None):
+    """every `theorem` declared in a hand-written property module, with its fully qualified name derived from the
+    `namespace … / section … / end …` structure of the file itself (`namespace` is kept for compatibility and ignored)"""
     path = os.path.join(VERIF, "lean", module.replace(".", "/") + ".lean")
     if not os.path.exists(path): return []
-    names = re.findall(r"^\s*(?:@\[[^\]]*\]\s*)*theorem\s+([A-Za-z0-9_'.]+)", open(path, encoding="utf-8").read(), re.M)
-    return [("%s.%s" % (namespace, n), module) for n in names]
+    src = open(path, encoding="utf-8").read()
+    src = re.sub(r"/-.*?-/", lambda m: "\n" * m.group(0).count("\n"), src, flags=re.S)   # drop block comments, keep line structure
+    stack = []; out = []
+    for line in src.splitlines():
+        line = line.split("--")[0]
+        m = re.match(r"\s*namespace\s+([A-Za-z0-9_'.]+)", line)
+        if m: stack.append(("ns", m.group(1))); continue
+        m = re.match(r"\s*(?:noncomputable\s+)?section\b\s*([A-Za-z0-9_'.]*)", line)
+        if m: stack.append(("sec", m.group(1))); continue
+        m = re.match(r"\s*end\b\s*([A-Za-z0-9_'.]*)\s*$", line)
+        if m and stack:
+            stack.pop(); continue
+        m = re.match(r"\s*(?:@\[[^\]]*\]\s*)*(?:private\s+|protected\s+)?theorem\s+([A-Za-z0-9_'.]+)", line)
+        if m:
+            ns = ".".join(n for (k, n) in stack if k == "ns")
+            out.append((("%s.%s" % (ns, m.group(1))) if ns else m.group(1), module))
+    return out
 
 def targets_if_exist(*mods):
     return [m for m in mods if os.path.exists(os.path.join(VERIF, "lean", m.replace(".", "/") + ".lean"))]
@@ -203,8 +219,8 @@ PROPS["C10"] = {
 for _pid in ("C11", "C12", "C13", "C14"):
     PROPS[_pid] = {
         "translators": ["consts"],
-        "lean_targets": prop_modules(_pid),
-        "theorems": (lambda _p=_pid: thms(_p)),
+        "lean_targets": prop_modules(_pid, extra=("JediVerif.Properties.%sb" % _pid,)),
+        "theorems": (lambda _p=_pid: thms(_p, extra=(("JediVerif.Properties.%sb" % _p, "Jedi.%sb" % _p),))),
         "streams": stream_set([("wkdibe", 4)], ["asm"], ["asm", "portable64", "portable32", "asan"], scale=2),
         "hypotheses": ["H-bilinear when the abstract-group theorems are transported to the concrete pairing"],
     }
@@ -228,8 +244,8 @@ PROPS["C17"] = {
 }
 PROPS["C16"] = {
     "translators": ["consts"],
-    "lean_targets": prop_modules("C16"),
-    "theorems": lambda: thms("C16"),
+    "lean_targets": prop_modules("C16", extra=("JediVerif.Properties.C16b",)),
+    "theorems": lambda: thms("C16", extra=(("JediVerif.Properties.C16b", "Jedi.C16b"),)),
     "streams": stream_set([("lqibe", 6)], ["asm", "portable64"], ALLCFG + ["asan"], scale=2),
     "filter": lambda l: l.startswith(("lq_setup", "lq_msk", "lq_id", "lq_keygen", "lq_encrypt", "lq_decrypt", "lq_ctmod")),
     "hypotheses": ["H-bilinear", "H-card (Q_id lies in G1 after cofactor clearing)"],
